@@ -141,6 +141,17 @@ LAYOUTS = {
         regs=[("reg_f", "root.rf._to_bits_()", 4, 0x3C)],
         wmasks=[0xFFF],
         notif=dict(ports=[("nt_w", "root.rf.wr_n._bit"), ("nt_r", "root.rf.rd_n._bit")], reg=0, wshift=16, wwidth=2, rshift=24)),
+    # reg32.Output registers: a 16-bit signal in the low half (lsbs), in the high half (msbs) and in the middle (offset 8) of
+    # the register word; a write replaces exactly the strobed bytes, the other bytes of the signal keep their value
+    "outputs": dict(
+        regmap="OUT_LO = Signal[BitVector[16]](Null, name='sig_lo')\nOUT_HI = Signal[BitVector[16]](Null, name='sig_hi')\n"
+               "OUT_MID = Signal[BitVector[16]](Null, name='sig_mid')\n\n"
+               "class Root(reg32.AddrMap, word_count=4):\n    ol: reg32.Output[0]\n    oh: reg32.Output[4]\n    om: reg32.Output[8]\n"
+               "    def _config_(self):\n        self.ol._config_(OUT_LO, lsbs=True)\n        self.oh._config_(OUT_HI, msbs=True)\n"
+               "        self.om._config_(OUT_MID, offset=8, padding=8)\n",
+        regs=[("reg_l", "BitVector[16](Null) @ OUT_LO", 0, 0), ("reg_h", "OUT_HI @ BitVector[16](Null)", 4, 0),
+              ("reg_m", "BitVector[8](Null) @ OUT_MID @ BitVector[8](Null)", 8, 0)],
+        wmasks=[0xFFFF, 0xFFFF0000, 0x00FFFF00]),
 }
 
 
@@ -230,6 +241,9 @@ def plan(tier):
     rw_tied("fields", "readwrite_tied", [4], [F32], [15], [4], bready=ON if q else FREE)
     # partial strobes on a register with fields (byte 0 = m, byte 1 = mu, byte 2 = cnt (hardware), byte 3 = tog (hardware))
     wr("fields", "write_strobe", [4], [F32], [1, 2])
+    # Output registers: partial strobes that leave one byte of the signal unstrobed
+    wr("outputs", "write_strobe", [0, 4] if q else [0, 4, 8], [F32], [1, 4] if q else [1, 2, 4, 8])
+    wr("outputs", "write_mid", [8], [F32], [2, 6])
     if not q:
         # wider payload alphabets, one aspect per case
         for i, pair in enumerate([[0, 15], [1, 4], [12, 3], [6, 9]]):
